@@ -203,8 +203,21 @@ def regen():
             mod = importlib.import_module(g)
             for fname, text in mod.generate_all(REPO).items():
                 write_if_changed(os.path.join(COQ, 'Gen', fname), text)
-        except (Unsupported, SyntaxError, KeyError, IndexError, AttributeError, ValueError, TypeError, OSError) as e:
+        except (Unsupported, SyntaxError, KeyError, IndexError, AttributeError, ValueError, TypeError, OSError, AssertionError) as e:
             errs.append((g, '%s: %s' % (type(e).__name__, e)))
+            # the files this generator owns are now stale: remove them so that exactly the
+            # theorems that depend on them stop checking (never a stale success)
+            for f in glob.glob(os.path.join(COQ, 'Gen', '*.v')):
+                try:
+                    head = open(f).readline()
+                except OSError:
+                    continue
+                if 'tr/%s.py' % g in head:
+                    for ext in ('.v', '.vo', '.vok', '.vos', '.glob'):
+                        try:
+                            os.remove(f[:-2] + ext)
+                        except OSError:
+                            pass
     return errs
 
 
@@ -226,8 +239,15 @@ def coq_make(timeout=1500):
         rc, out = sh('make -j%d -k' % NPROC, timeout=timeout, cwd=COQ)
     if rc == 0:
         return True, [], out
-    failing = re.findall(r'File "\./([^"]+)", line \d+', out)
-    return False, sorted(set(failing)), out
+    failing = sorted(set(re.findall(r'File "\./([^"]+)", line \d+', out)))
+    # a file that no longer compiles must not leave an old .vo behind (stale success)
+    for f in failing:
+        for ext in ('.vo', '.vok', '.vos'):
+            try:
+                os.remove(os.path.join(COQ, f[:-2] + ext))
+            except OSError:
+                pass
+    return False, failing, out
 
 
 def source_audit():
@@ -272,14 +292,15 @@ def standard_proof_phase(ctx, gen_files_used=()):
     obligation of this property is discharged."""
     ok = True
     errs = regen()
-    for g, e in errs:
-        ctx.broken.append('translator %s: %s' % (g, e))
-        ok = False
     good, failing, log = coq_make()
+    # Only what Props/<pid>.v depends on decides this property: a generator or proof
+    # file of another slice that fails is recorded, and becomes this property's
+    # broken obligation exactly when Props/<pid>.v no longer compiles because of it.
+    if errs:
+        ctx.extra['translator_errors'] = ['%s: %s' % ge for ge in errs]
     if not good:
-        ctx.broken.append('coq build failed in: %s' % ', '.join(failing or ['?']))
+        ctx.extra['coq_build_failures'] = failing or ['?']
         ctx.extra['coq_log_tail'] = log[-1500:]
-        ok = False
     bad = source_audit()
     if bad:
         ctx.broken.append('forbidden tokens: %s' % '; '.join(bad))
@@ -290,7 +311,8 @@ def standard_proof_phase(ctx, gen_files_used=()):
     ctx.axioms = a['axioms']
     ctx.extra['theorems'] = a['theorems']
     if a['rc'] != 0:
-        ctx.broken.append('Props/%s.v does not compile' % ctx.pid)
+        ctx.broken.append('Props/%s.v does not compile (translator errors: %s; files failing to build: %s)' % (
+            ctx.pid, ['%s: %s' % ge for ge in errs] or 'none', failing or 'none'))
         ctx.extra['props_log_tail'] = a['log'][-1500:]
         ok = False
     elif set(a['printed']) != set(a['theorems']):
